@@ -20,7 +20,14 @@ import (
 )
 
 func c08LongCase(stream, version string, pre, n, back int) (obs, sig, msg string) {
-	desc := fmt.Sprintf("%s stream, %s, cut after %d messages, %d written while detached, resumed from %d events before the cut", stream, version, pre, n, back)
+	return c08LongCaseID(stream, version, pre, n, back, "7")
+}
+
+// reqID: the JSON-RPC id of the tools/call whose stream is cut, as written on the wire (string ids may
+// contain any character, "_" and "-" included: whatever the server derives event ids from, it has to be
+// able to read them back)
+func c08LongCaseID(stream, version string, pre, n, back int, reqID string) (obs, sig, msg string) {
+	desc := fmt.Sprintf("%s stream, %s, cut after %d messages, %d written while detached, resumed from %d events before the cut, request id %s", stream, version, pre, n, back, reqID)
 	fail := func(s, format string, a ...any) (string, string, string) {
 		return "", "c08 long-backlog " + s, fmt.Sprintf(format, a...) + " [" + desc + "]"
 	}
@@ -114,7 +121,7 @@ func c08LongCase(stream, version string, pre, n, back int) (obs, sig, msg string
 	}
 	var first *exchange
 	if stream == "request" {
-		first = open("POST", `{"jsonrpc":"2.0","id":7,"method":"tools/call","params":{"name":"t","arguments":{},"_meta":{"progressToken":"tok"}}}`, sid, "", priming+pre)
+		first = open("POST", `{"jsonrpc":"2.0","id":`+reqID+`,"method":"tools/call","params":{"name":"t","arguments":{},"_meta":{"progressToken":"tok"}}}`, sid, "", priming+pre)
 	} else {
 		first = open("GET", "", sid, "", priming+pre)
 		for i := 1; i <= pre; i++ {
@@ -191,7 +198,7 @@ func c08LongCase(stream, version string, pre, n, back int) (obs, sig, msg string
 		wantL = append(wantL, fmt.Sprintf("note %d", i))
 	}
 	if stream == "request" {
-		wantL = append(wantL, "response 7")
+		wantL = append(wantL, "response "+reqID)
 	}
 	for _, d := range got {
 		gotL = append(gotL, label(d))
@@ -265,6 +272,32 @@ func TestVerifC08Long(t *testing.T) {
 						})
 					}
 				}
+			}
+		}
+	}
+	// request ids of every shape: the stream (and its event ids) may be named after anything
+	idc := env.NewCases(res, "long-backlog/request-id-shapes")
+	for _, version := range []string{"2025-06-18", "2025-11-25"} {
+		for _, reqID := range []string{`7`, `0`, `-3`, `9007199254740993`, `"job_1"`, `"a_b_c"`, `"_"`, `"x-y"`, `"id with blank"`, `"ü"`, `""`, `"7"`} {
+			for _, back := range []int{0, 1} {
+				idx, mine := idc.Next()
+				if !mine {
+					continue
+				}
+				var obs, sig, msg string
+				func() {
+					defer func() {
+						if r := recover(); r != nil && sig == "" {
+							sig, msg = "c08 long-backlog panic-or-leak", fmt.Sprintf("%v [%s id %s]", r, version, reqID)
+						}
+					}()
+					synctest.Test(t, func(t *testing.T) { obs, sig, msg = c08LongCaseID("request", version, 2, 3, back, reqID) })
+				}()
+				if sig != "" {
+					idc.Violate(idx, sig+" request-id-shape", msg, 6)
+					continue
+				}
+				idc.Record(idx, obs, 6, func() string { return fmt.Sprintf("%s id=%s back=%d", version, reqID, back) })
 			}
 		}
 	}
